@@ -96,7 +96,7 @@ func main() {
 			}
 		}
 	}
-	if prop == "C08" && (mode != "search" || os.Getenv("VERIF_LIFECYCLE") != "") {
+	if mode != "search" || os.Getenv("VERIF_LIFECYCLE") != "" {
 		lifecycleHistory(seed, rep)
 	}
 	for i := 0; i < n; i++ {
